@@ -94,7 +94,7 @@ impl ZooMsg for VecB8 {
 }
 
 macro_rules! family {
-    ($S:ident, $SInit:ident, $E:ident, $EInitN:ident, $EInitP:ident, $EInitQ:ident, $ERef:ident, $EMut:ident, $Tail:ty, $sname:expr, $ename:expr) => {
+    ($S:ident, $SInit:ident, $E:ident, $EInitN:ident, $EInitP:ident, $EInitQ:ident, $ERef:ident, $EMut:ident, $Tail:ty, $tag:literal, $sname:expr, $ename:expr) => {
         #[flat(sized = false, default = true)]
         pub struct $S<A: Leaf, B: Leaf, C: Leaf> {
             pub a: A,
@@ -127,7 +127,7 @@ macro_rules! family {
             }
         }
 
-        #[flat(sized = false, default = true)]
+        #[flat(sized = false, default = true, tag_type = $tag)]
         pub enum $E<A: Leaf, B: Leaf, C: Leaf> {
             #[default]
             N,
@@ -185,11 +185,11 @@ macro_rules! family {
     };
 }
 
-family!(S0, S0Init, E0, E0InitN, E0InitP, E0InitQ, E0Ref, E0Mut, VecU8, "S{A,B,C,FlatVec<u8,u32>}", "E{N|P(A,B,C)|Q{B,A,C,FlatVec<u8,u32>}}");
-family!(S1, S1Init, E1, E1InitN, E1InitP, E1InitQ, E1Ref, E1Mut, VecB8, "S{A,B,C,FlatVec<u8,u8>}", "E{N|P(A,B,C)|Q{B,A,C,FlatVec<u8,u8>}}");
-family!(S2, S2Init, E2, E2InitN, E2InitP, E2InitQ, E2Ref, E2Mut, Str8, "S{A,B,C,FlatString<u8>}", "E{N|P(A,B,C)|Q{B,A,C,FlatString<u8>}}");
-family!(S3, S3Init, E3, E3InitN, E3InitP, E3InitQ, E3Ref, E3Mut, VecI32, "S{A,B,C,FlatVec<i32,u16>}", "E{N|P(A,B,C)|Q{B,A,C,FlatVec<i32,u16>}}");
-family!(S4, S4Init, E4, E4InitN, E4InitP, E4InitQ, E4Ref, E4Mut, BoolVec, "S{A,B,C,FlatVec<Bool,u8>}", "E{N|P(A,B,C)|Q{B,A,C,FlatVec<Bool,u8>}}");
-family!(S5, S5Init, E5, E5InitN, E5InitP, E5InitQ, E5Ref, E5Mut, VecU16, "S{A,B,C,FlatVec<u16,u16>}", "E{N|P(A,B,C)|Q{B,A,C,FlatVec<u16,u16>}}");
-family!(S6, S6Init, E6, E6InitN, E6InitP, E6InitQ, E6Ref, E6Mut, FlexB, "S{A,B,C,FlexVec<u8,u8>}", "E{N|P(A,B,C)|Q{B,A,C,FlexVec<u8,u8>}}");
-family!(S7, S7Init, E7, E7InitN, E7InitP, E7InitQ, E7Ref, E7Mut, VecA3, "S{A,B,C,FlatVec<[u8;3],u16>}", "E{N|P(A,B,C)|Q{B,A,C,FlatVec<[u8;3],u16>}}");
+family!(S0, S0Init, E0, E0InitN, E0InitP, E0InitQ, E0Ref, E0Mut, VecU8, "u8", "S{A,B,C,FlatVec<u8,u32>}", "E{N|P(A,B,C)|Q{B,A,C,FlatVec<u8,u32>}}");
+family!(S1, S1Init, E1, E1InitN, E1InitP, E1InitQ, E1Ref, E1Mut, VecB8, "u8", "S{A,B,C,FlatVec<u8,u8>}", "E{N|P(A,B,C)|Q{B,A,C,FlatVec<u8,u8>}}");
+family!(S2, S2Init, E2, E2InitN, E2InitP, E2InitQ, E2Ref, E2Mut, Str8, "u8", "S{A,B,C,FlatString<u8>}", "E{N|P(A,B,C)|Q{B,A,C,FlatString<u8>}}");
+family!(S3, S3Init, E3, E3InitN, E3InitP, E3InitQ, E3Ref, E3Mut, VecI32, "u8", "S{A,B,C,FlatVec<i32,u16>}", "E{N|P(A,B,C)|Q{B,A,C,FlatVec<i32,u16>}}");
+family!(S4, S4Init, E4, E4InitN, E4InitP, E4InitQ, E4Ref, E4Mut, BoolVec, "u16", "S{A,B,C,FlatVec<Bool,u8>}", "E{N|P(A,B,C)|Q{B,A,C,FlatVec<Bool,u8>}}");
+family!(S5, S5Init, E5, E5InitN, E5InitP, E5InitQ, E5Ref, E5Mut, VecU16, "u16", "S{A,B,C,FlatVec<u16,u16>}", "E{N|P(A,B,C)|Q{B,A,C,FlatVec<u16,u16>}}");
+family!(S6, S6Init, E6, E6InitN, E6InitP, E6InitQ, E6Ref, E6Mut, FlexB, "u32", "S{A,B,C,FlexVec<u8,u8>}", "E{N|P(A,B,C)|Q{B,A,C,FlexVec<u8,u8>}}");
+family!(S7, S7Init, E7, E7InitN, E7InitP, E7InitQ, E7Ref, E7Mut, VecA3, "u32", "S{A,B,C,FlatVec<[u8;3],u16>}", "E{N|P(A,B,C)|Q{B,A,C,FlatVec<[u8;3],u16>}}");
